@@ -322,7 +322,7 @@ func (f Frame) Atom(cond ssa.Value, pol bool) (Set, bool) {
 func (f Frame) PathMeaning(p Path, opaque *[]Cond) Set {
 	s := f.full()
 	for _, c := range p.Conds() {
-		t, fs, known := f.evalBool(c.V, p, 0)
+		t, fs, known := f.evalBool(c.V, p.upTo(c), 0)
 		if !known {
 			if opaque != nil {
 				*opaque = append(*opaque, c)
@@ -375,6 +375,10 @@ func Feasible(p Path) bool {
 	for _, c := range p.Conds() {
 		k := PathOf(c.V)
 		if strings.Contains(k, "call:") || strings.Contains(k, "<-") || strings.Contains(k, "?") {
+			continue
+		}
+		// loop-variant conditions (the header test of a loop passed twice) are different facts
+		if strings.Contains(k, "phi{") || strings.Contains(k, "rangeok(") || strings.Contains(k, "next(") || strings.Contains(k, "…") || len(Latches(c.At)) > 0 {
 			continue
 		}
 		if v, ok := seen[k]; ok && v != c.True {
